@@ -272,22 +272,36 @@ def run(chk, w):
                 else:
                     chk.violation("C05-INV", hn, "send_seqnum", s.loc(), "constant %d stored to the sequence counter" % v)
                 continue
-            # old + 1 ?
-            vi = h.resolve(rules.strip_casts(h, s["val"]))
-            okinc = False
-            if vi is not None and vi.op == "add" and rules.const_of(h, vi["b"]) == 1:
-                src = h.resolve(rules.strip_casts(h, vi["a"]))
-                if src is not None and src.op == "load" and through_param(src["ptr"]):
+            # old + 1 ?  (directly, or through locals: `current = *p; if (current != 255) next = current + 1; else next = 1; *p = next;`)
+            def old_value(o):
+                src = h.resolve(rules.resolve_local(h, o))
+                return src is not None and src.op == "load" and through_param(src["ptr"])
+
+            def value_ok(at, o, depth=0):
+                cv_ = rules.const_of(h, o)
+                if cv_ is not None:
+                    return 1 <= (cv_ & 0xff) <= 255
+                vi = h.resolve(rules.strip_casts(h, o))
+                if vi is None or depth > 3:
+                    return False
+                if vi.op == "load" and vi["ptr"].get("k") == "inst" and h.insts[vi["ptr"]["id"]].op == "alloca" and not through_param(vi["ptr"]):
+                    al = h.insts[vi["ptr"]["id"]]
+                    if h.param_index_of_alloca(al) is not None or rules._escapes(h, al):
+                        return False
+                    sts = [x for x in h.all_insts() if x.op == "store" and x["ptr"].get("k") == "inst" and x["ptr"]["id"] == al.id]
+                    return bool(sts) and all(value_ok(x, x["val"], depth + 1) for x in sts)
+                if vi.op == "add" and rules.const_of(h, vi["b"]) == 1 and old_value(vi["a"]):
                     # must be guarded by old != 255
-                    for (br, taken) in rules.branch_conditions(h, s):
+                    for (br, taken) in rules.branch_conditions(h, at):
                         c = h.resolve(br["cond"])
                         if c is not None and c.op == "icmp":
                             cv = rules.const_of(h, c["b"])
-                            ld = h.resolve(rules.strip_casts(h, c["a"]))
-                            if ld is not None and ld.op == "load" and through_param(ld["ptr"]) and cv is not None:
+                            if old_value(c["a"]) and cv is not None:
                                 if (c["pred"] == "eq" and not taken and cv == 255) or (c["pred"] == "ne" and taken and cv == 255) or \
                                    (c["pred"] == "ult" and taken and cv <= 255) or (c["pred"] == "slt" and taken and cv <= 255):
-                                    okinc = True
+                                    return True
+                return False
+            okinc = value_ok(s, s["val"])
             if okinc:
                 chk.ok("C05-INV", 1, {"store": s.loc(), "value": "old+1 under old != 255"})
             else:
